@@ -36,7 +36,7 @@ void operator delete[](void* p, std::size_t) noexcept { std::free(p); }
 #ifdef SIM_TSAN
 extern "C" __attribute__((used)) const char* __tsan_default_options()
 {
-    return "halt_on_error=1:exitcode=78:report_signal_unsafe=0:second_deadlock_stack=0";
+    return "halt_on_error=1:exitcode=78:report_signal_unsafe=0:second_deadlock_stack=0:ignore_interceptors_accesses=1";
 }
 #endif
 
@@ -392,7 +392,7 @@ int main(int argc, char** argv)
     if (mode == "plan")
     {
         const auto rs = run_seed_of(seed, prop, run);
-        const auto plan = (c17_enumerated_run(prop, run) && failk > 0)
+        const auto plan = c17_enumerated_run(prop, run)
                               ? c17_plan(rs, thorough, failk)
                               : sim::generate_plan(prop, rs, thorough, fault_population(prop, run));
         std::printf("# cfg=%s prop=C%02d seed=%llu run=%ld env=%llu env2=%llu\n", CFG_NAME, prop,
